@@ -4,16 +4,97 @@ import PhyVerif.Spec.C11
 namespace PhyVerif.C11.Lemmas
 open PhyVerif PhyVerif.C11
 
+private theorem foldl_max_ge (l : List Nat) :
+    ∀ a : Nat, a ≤ l.foldl max a ∧ ∀ v ∈ l, v ≤ l.foldl max a := by
+  induction l with
+  | nil => intro a; simp
+  | cons b l ih =>
+    intro a
+    rw [List.foldl_cons]
+    have h := ih (max a b)
+    refine ⟨by omega, ?_⟩
+    intro v hv
+    rcases List.mem_cons.mp hv with h1 | h1
+    · subst h1; omega
+    · exact h.2 v h1
+
+private theorem foldl_max_lt (l : List Nat) (c : Nat) (h : ∀ v ∈ l, v < c) :
+    ∀ a : Nat, a < c → l.foldl max a < c := by
+  induction l with
+  | nil => intro a ha; simpa using ha
+  | cons b l ih =>
+    intro a ha
+    rw [List.foldl_cons]
+    have hb := h b (List.mem_cons_self)
+    exact ih (fun v hv => h v (List.mem_cons_of_mem _ hv)) (max a b) (by omega)
+
+private theorem sizeOffsetsFrom_length (sizes : List Nat) :
+    ∀ off, (sizeOffsetsFrom off sizes).length = sizes.length := by
+  induction sizes with
+  | nil => intro off; rfl
+  | cons s rest ih => intro off; simp [sizeOffsetsFrom, ih]
+
+private theorem sizeOffsetsFrom_getD (sizes : List Nat) :
+    ∀ off k, k < sizes.length → (sizeOffsetsFrom off sizes).getD k 0 = off + (sizes.take k).sum := by
+  induction sizes with
+  | nil => intro off k hk; simp at hk
+  | cons s rest ih =>
+    intro off k hk
+    cases k with
+    | zero => simp [sizeOffsetsFrom]
+    | succ k =>
+      have hk' : k < rest.length := by simpa using hk
+      rw [sizeOffsetsFrom, List.getD_cons_succ, ih _ k hk', List.take_succ_cons, List.sum_cons]
+      omega
+
+private theorem take_sum_step (sizes : List Nat) :
+    ∀ k l, k < l → l ≤ sizes.length → (sizes.take k).sum + sizes.getD k 0 ≤ (sizes.take l).sum := by
+  induction sizes with
+  | nil => intro k l hkl hl; simp at hl; omega
+  | cons s rest ih =>
+    intro k l hkl hl
+    cases l with
+    | zero => omega
+    | succ l =>
+      have hl' : l ≤ rest.length := by simpa using hl
+      cases k with
+      | zero => simp
+      | succ k =>
+        have := ih k l (by omega) hl'
+        simp only [List.take_succ_cons, List.sum_cons, List.getD_cons_succ]
+        omega
+
+private theorem zip_getElem? {α β : Type} (as : List α) (bs : List β) (k : Nat)
+    (h1 : k < as.length) (h2 : k < bs.length) : (as.zip bs)[k]? = some (as[k], bs[k]) := by
+  rw [List.getElem?_zip_eq_some]
+  exact ⟨List.getElem?_eq_getElem h1, List.getElem?_eq_getElem h2⟩
+
+private theorem shiftBy_getD_eq (ids : List (List Nat)) (offsets : List Nat)
+    (hlen : offsets.length = ids.length) (k : Nat) :
+    (shiftBy ids offsets).getD k [] = (ids.getD k []).map (· + offsets.getD k 0) := by
+  by_cases hk : k < ids.length
+  · have hk' : k < offsets.length := by omega
+    simp [shiftBy, List.getD_eq_getElem?_getD, List.getElem?_map, zip_getElem? _ _ k hk hk',
+      List.getElem?_eq_getElem hk, List.getElem?_eq_getElem hk']
+  · have h1 : ids[k]? = none := List.getElem?_eq_none (Nat.le_of_not_lt hk)
+    have h2 : (shiftBy ids offsets)[k]? = none := by
+      apply List.getElem?_eq_none
+      simp [shiftBy]; omega
+    simp [List.getD_eq_getElem?_getD, h1, h2]
+
 /-- running offsets are the prefix sums of the sizes -/
 theorem sizeOffsets_prefix (sizes : List Nat) (k : Nat) (hk : k < sizes.length) :
     (sizeOffsetsFrom 0 sizes).getD k 0 = (sizes.take k).sum := by
-  sorry
+  rw [sizeOffsetsFrom_getD sizes 0 k hk]; omega
 
 /-- shifted ids: original id + offset of the probe -/
 theorem shiftBy_getD (ids : List (List Nat)) (offsets : List Nat) (hlen : offsets.length = ids.length)
     (k i : Nat) (hi : i < (ids.getD k []).length) :
     ((shiftBy ids offsets).getD k []).getD i 0 = (ids.getD k []).getD i 0 + offsets.getD k 0 := by
-  sorry
+  rw [shiftBy_getD_eq ids offsets hlen k]
+  generalize ids.getD k [] = l at hi
+  generalize offsets.getD k 0 = o
+  simp [List.getD_eq_getElem?_getD, List.getElem?_map, List.getElem?_eq_getElem hi]
 
 /-- offsets that are prefix sums of sizes exceeding every id of their probe keep the shifted ids
 of different probes apart -/
@@ -21,14 +102,46 @@ theorem sized_ids_disjoint (ids : List (List Nat)) (sizes : List Nat) (hlen : si
     (hsz : ∀ k, ∀ a ∈ ids.getD k [], a < sizes.getD k 0) (k l : Nat) (hkl : k < l) (hl : l < ids.length) :
     ∀ a ∈ (shiftBy ids (sizeOffsetsFrom 0 sizes)).getD k [],
       ∀ b ∈ (shiftBy ids (sizeOffsetsFrom 0 sizes)).getD l [], a < b := by
-  sorry
+  have hlen' : (sizeOffsetsFrom 0 sizes).length = ids.length := by
+    rw [sizeOffsetsFrom_length]; exact hlen
+  intro a ha b hb
+  rw [shiftBy_getD_eq ids _ hlen' k, sizeOffsets_prefix sizes k (by omega)] at ha
+  rw [shiftBy_getD_eq ids _ hlen' l, sizeOffsets_prefix sizes l (by omega)] at hb
+  rcases List.mem_map.mp ha with ⟨a0, ha0, rfl⟩
+  rcases List.mem_map.mp hb with ⟨b0, hb0, rfl⟩
+  have h1 := hsz k a0 ha0
+  have h2 := take_sum_step sizes k l hkl (by omega)
+  show a0 + _ < b0 + _
+  omega
+
+private theorem templateSizes_length (ids : List (List Nat)) (counts : List Nat)
+    (hlen : counts.length = ids.length) : (templateSizes ids counts).length = ids.length := by
+  simp [templateSizes, hlen]
+
+private theorem templateSizes_getD (ids : List (List Nat)) (counts : List Nat)
+    (hlen : counts.length = ids.length) (k : Nat) (hk : k < ids.length) :
+    (templateSizes ids counts).getD k 0
+      = max ((ids.getD k []).foldl max 0 + 1) (counts.getD k 0) := by
+  have hk' : k < counts.length := by omega
+  simp [templateSizes, List.getD_eq_getElem?_getD, List.getElem?_map, zip_getElem? _ _ k hk hk',
+    List.getElem?_eq_getElem hk, List.getElem?_eq_getElem hk']
 
 /-- merged template ids of different probes never collide -/
 theorem template_ids_disjoint (ids : List (List Nat)) (counts : List Nat) (hlen : counts.length = ids.length)
     (k l : Nat) (hkl : k < l) (hl : l < ids.length) :
     ∀ a ∈ (shiftBy ids (templateOffsets ids counts)).getD k [],
       ∀ b ∈ (shiftBy ids (templateOffsets ids counts)).getD l [], a < b := by
-  sorry
+  unfold templateOffsets
+  apply sized_ids_disjoint ids (templateSizes ids counts) (templateSizes_length ids counts hlen)
+    _ k l hkl hl
+  intro j a ha
+  by_cases hj : j < ids.length
+  · rw [templateSizes_getD ids counts hlen j hj]
+    have := (foldl_max_ge (ids.getD j []) 0).2 a ha
+    omega
+  · have : ids.getD j [] = [] := by
+      simp [List.getD_eq_getElem?_getD, List.getElem?_eq_none (Nat.le_of_not_lt hj)]
+    rw [this] at ha; cases ha
 
 /-- when every template id is below its probe's template count, the template offsets are the
 summed template counts of the previous probes — the merged template numbering of C12 -/
@@ -36,6 +149,25 @@ theorem templateOffsets_eq_counts (ids : List (List Nat)) (counts : List Nat) (h
     (hlt : ∀ k, ∀ a ∈ ids.getD k [], a < counts.getD k 0) (hpos : ∀ c ∈ counts, 0 < c)
     (k : Nat) (hk : k < ids.length) :
     (templateOffsets ids counts).getD k 0 = (counts.take k).sum := by
-  sorry
+  have heq : templateSizes ids counts = counts := by
+    apply List.ext_getElem (by rw [templateSizes_length ids counts hlen, hlen])
+    intro j h1 h2
+    have hj : j < ids.length := by omega
+    have e1 := templateSizes_getD ids counts hlen j hj
+    rw [List.getD_eq_getElem?_getD, List.getD_eq_getElem?_getD (l := counts),
+      List.getElem?_eq_getElem h1, List.getElem?_eq_getElem h2] at e1
+    simp only [Option.getD_some] at e1
+    rw [e1]
+    have hp := hpos counts[j] (List.getElem_mem h2)
+    have hlt' : ∀ a ∈ ids.getD j [], a < counts[j] := by
+      intro a ha
+      have := hlt j a ha
+      rwa [List.getD_eq_getElem?_getD, List.getElem?_eq_getElem h2, Option.getD_some] at this
+    have hb : (ids.getD j []).foldl max 0 < counts[j] :=
+      foldl_max_lt (ids.getD j []) counts[j] hlt' 0 hp
+    omega
+  unfold templateOffsets
+  rw [heq]
+  exact sizeOffsets_prefix counts k (by omega)
 
 end PhyVerif.C11.Lemmas
